@@ -12,7 +12,7 @@ From Coq Require Import String.
 From Coq Require Import List Ascii ZArith Bool Lia.
 From CGV Require Import Base.PyBase Base.PyVal Base.NxGraph Base.PyGen Gen.ReaderGen Dialect.DialectImpl
      Reader.ReaderImpl Reader.Grammar Reader.ReaderLemmas Reader.Lin Reader.GraphLemmas Reader.ReaderSim Reader.ReaderMult
-     Reader.ReaderUnit Reader.ReaderUnitGen Reader.ReaderTrack.
+     Reader.ReaderUnit Reader.ReaderLast Reader.ReaderX Reader.ReaderUnitGen Reader.ReaderTrack.
 Import ListNotations.
 Open Scope Z_scope.
 
@@ -252,8 +252,9 @@ Lemma gunit_sim fo u K : gunit_ok fo u = true -> cont K ->
 Proof.
   intros Hok HK st x pre pc f ak a0 rc HR Ep Hat Ea0 Hpd Hset Hlen Habs Hpre.
   destruct (gunit_ok_parts fo u Hok) as (Hna & Hbne & Hbo & Hlb & Hd & HN).
-  pose proof (unit_body_gen fo u ak a0 K (m_stack x) rc Ea0 Hna Hbo Hd HK Hlen Habs (u_body u) true st x
-                (pre ++ ["("%char]) pc f [] Hbne HR) as Hbody.
+  pose proof (unit_body_gen fo u ak a0 (m_stack x) rc [] K Ea0 Hna Hbo Hd HK eq_refl (fun C => False_ind _ (C eq_refl)) (Nat.le_0_l _)
+                Hlen Habs (u_body u) true st x (pre ++ ["("%char]) pc f [] Hbne HR) as Hbody.
+  cbn [closes_toks closes_str flat_map app length skipn] in Hbody. rewrite app_nil_r in Hbody.
   assert (Hf1 : m_stack x = m_stack x /\ m_prev x = Some ak
                 /\ rec_set (Some ak) [(1, a0, Some 1)] (s_recipes st) = rc ++ [(Some ak, [(1, a0, Some 1)])]
                 /\ node_attrs (m_g x) ak = Ok a0 /\ (@nil recipe_entry) = []) by (repeat split; assumption).
@@ -266,8 +267,8 @@ Proof.
   assert (Etl : pre ++ gunit_str u ++ K = (pre ++ ["("%char]) ++ flat_map bnode_str (u_body u) ++ closing_str u ++ K).
   { unfold gunit_str. rewrite <- !app_assoc. cbn [app]. now rewrite <- app_assoc. }
   rewrite Etl. destruct (m_run fo (gunit_toks u) x) as [x1|e]; [|exact Hbody].
-  destruct Hbody as (st1 & pre1 & E & Hp & HR1 & Hrc & Hs & _). exists st1, pre1.
-  split; [exact E|]. split; [exact Hp|]. split; [exact HR1|]. split; [exact Hrc|exact Hs].
+  destruct Hbody as (st1 & pre1 & E & Hp & HR1 & Hrc & Hs). exists st1, pre1.
+  split; [exact E|]. split; [exact Hp|]. split; [exact HR1|]. split; [|exact Hs]. intros E0. apply Hrc. now rewrite Hs.
 Qed.
 
 (** ** texts made of flat items and multiplied branches *)
